@@ -28,6 +28,16 @@ output layer, agent.exp_layer is that live layer.
 Lambda semantics (DESIGN D16): Z0 = lamb*I is the property text ("paper"); `sigma_inv0 = lamb*I`
 ("code") is probed on exactly lamb != 1 through chk.finding("C19-lambda-not-inverted").  A stale
 `exp_layer` after load is probed through chk.finding("C19-exp-layer-stale-after-load").
+
+Source translation (`pre_gate`, before the Lean gate): `py2lean_bandit.py` translates the tensor expressions of
+the methods of NeuralUCB / NeuralTS that initialise and update `self.sigma_inv` (init_params: numel and
+`torch.eye(numel) / lamb`; get_action: the quadratic form under the square root, the masked / unmasked argmax, the
+Sherman-Morrison statement) from the source text of the tree under test into `lean/Gen/BanditGen.lean`;
+`Proofs/BanditGenEq.lean` proves the generated definitions equal to `sigma0 .paper`, `bonus`, `smUpdate`,
+`Action.plainPick/maPick` and `Props/C19.lean` restates the theorems over them (`C19_source_translation_*`).  If
+the translator rejects the source or those proofs stop checking, that is a gate problem naming the broken
+equality; the histories below (sigma_inv against the exact inverse after every op, the float64 oracle, the
+lambda probe) then supply the failing input.
 """
 from __future__ import annotations
 
@@ -607,6 +617,16 @@ def probe_lambda(chk: Check):
             chk.finding(F_LAMBDA, f"{algo}(lamb=2.0): sigma_inv after init_params is {float(S[0, 0]):g}*I; "
                                   f"sigma_inv @ (lamb*I) = {float(S[0, 0]) * 2.0:g}*I != I", dict(case, finding=F_LAMBDA))
     return hit
+
+
+def pre_gate(chk: Check) -> None:
+    """Regenerate lean/Gen/BanditGen.lean from the source text of the tree under test (before the Lean gate)
+    and re-check `generated = model` (Proofs/BanditGenEq.lean) and the theorems over the generated
+    definitions (Props/C19.lean)."""
+    import common
+    import py2lean_bandit
+    common.translation_gate(chk, py2lean_bandit, "Gen/BanditGen.lean", ["Gen.BanditGen", "Proofs.BanditGenEq", "Props.C19"],
+                            "confidence-matrix expressions of NeuralUCB / NeuralTS init_params and get_action")
 
 
 def run(chk: Check) -> None:
